@@ -537,7 +537,7 @@ Theorem phase2_ns_total : forall p g,
   ns_balance p <> 2 -> ns_budget p g <= 100000 ->
   exists g', phase2 NetworkSimplex p g = Ok g'.
 Proof.
-  intros p g W Hac Hc Htwo Hbal Hmax. unfold phase2.
+  intros p g W Hac Hc Htwo Hbal Hmax. unfold phase2, assign_layers.
   assert (Hne : g_N g <> []) by (intros E; rewrite E in Htwo; cbn in Htwo; lia).
   assert (E1 : Nat.eqb (length (g_N g)) 1 = false) by (apply Nat.eqb_neq; lia).
   rewrite E1.
